@@ -42,7 +42,7 @@ BOUNDS = {
 ASSUMPTIONS = ["fresh set-up = new backend instance of the same class, new pipeline from the same YAML, _parse_condition_string.cache_clear(), SigmaModifier._type_hint_cache.clear()"]
 
 NOPS = 10
-PROBES = [0, 8, 10, 11, 12, 14]
+PROBES = [0, 8, 10, 11, 12, 14, 15]
 TEMPLATE_ATTRS = [
     "eq_expression", "re_expression", "cidr_expression", "startswith_expression", "endswith_expression", "contains_expression",
     "case_sensitive_startswith_expression", "case_sensitive_endswith_expression", "case_sensitive_contains_expression",
@@ -57,7 +57,7 @@ def backend_class(bk: int):
 
 
 def new_backend(cls, pipe, collect=True, pipeline_obj=None):
-    pl = pipeline_obj if pipeline_obj is not None else (ProcessingPipeline.from_yaml(PIPES[pipe]) if PIPES[pipe] else None)
+    pl = pipeline_obj if pipeline_obj is not None else (ProcessingPipeline.from_yaml(PIPES[pipe], allow_external_sources=(pipe == 3)) if PIPES[pipe] else None)
     b = cls(pl, collect_errors=collect)
     return b
 
@@ -99,8 +99,8 @@ def run_history(ops, probe_kind, bk, pipe, mode=0) -> bool:
             elif op == 1:  # load rules sharing condition text / names, no conversion
                 make_rule(10, i).detection.parsed_condition[0].parsed
                 make_rule(11, i)
-            elif op == 2:  # convert a collection (marker rule sets pipeline state)
-                A.convert(SigmaCollection([make_rule(12, i), make_rule(10, i + 5)]))
+            elif op == 2:  # convert a collection (marker rule sets pipeline state; placeholder rule fills value caches)
+                A.convert(SigmaCollection([make_rule(12, i), make_rule(10, i + 5), make_rule(15, i + 6)]))
             elif op == 3:  # convert a single rule
                 A.convert_rule(make_rule(12, i))
             elif op == 4:
@@ -170,7 +170,7 @@ def c15_concrete(o0: int, o1: int, o2: int, o3: int, probe_kind: int, bk: int, p
 
 OBLIGATIONS = (
     [Ob("c15_history", {"BK": 0, "PIPE": 1, "O0LO": o, "O0HI": o, "LEN": 3}, 900) for o in range(1, NOPS)]
-    + [Ob("c15_history", {"BK": bk, "PIPE": pp, "O0LO": lo, "O0HI": lo + 2, "LEN": 2}, 600) for bk, pp in ((1, 1), (0, 2)) for lo in (1, 4, 7)]
+    + [Ob("c15_history", {"BK": bk, "PIPE": pp, "O0LO": lo, "O0HI": lo + 2, "LEN": 2}, 600) for bk, pp in ((1, 1), (0, 2), (0, 3)) for lo in (1, 4, 7)]
     + [Ob("c15_history", {"BK": bk, "PIPE": pp, "O0LO": o, "O0HI": o, "LEN": 3}, 3000, tier="thorough") for bk, pp in ((1, 1), (0, 2)) for o in range(1, NOPS)]
     + [Ob("c15_history", {"BK": 0, "PIPE": 1, "O0LO": o, "O0HI": o, "LEN": 4}, 6000, tier="thorough") for o in range(1, NOPS)]
 )
